@@ -1,9 +1,14 @@
-"""Exact translation of QF_BV terms into linear integer arithmetic (the
-"solve-bv-as-int" encoding): every bit-vector term t of width k becomes an
-integer term u(t) with 0 <= u(t) < 2^k equal to its unsigned value, keeping
-the mod-2^k wrap-around.  Terms the encoding cannot express linearly
-(bitwise ops on two unknowns, variable shifts, non-constant multiplication)
-raise Unsupported, and the caller falls back to bit-blasting."""
+"""Exact translation of QF_BV terms into integer arithmetic (the
+"solve-bv-as-int" idea), with signed semantics and interval analysis.
+
+Every bit-vector term t of width k becomes an integer term S(t) equal to its
+two's-complement signed value, together with sound integer bounds [lo, hi].
+Operations are first computed exactly over the integers; the mod-2^k wrap-around
+is applied only when the bounds do not exclude overflow, so that arithmetic on
+quantities with declared small ranges (times, counters) stays purely linear.
+Terms that the encoding cannot express linearly (bitwise operations on two
+unknowns, variable shifts, non-constant multiplication) raise Unsupported and
+the caller falls back to bit-blasting."""
 import z3
 
 
@@ -14,71 +19,147 @@ class Unsupported(Exception):
 I = z3.IntVal
 
 
+
+def is_sext_idiom(e):
+    """z3.simplify writes sign_extend(x) as concat(x[w-1], ..., x[w-1], x)"""
+    ch = e.children()
+    x = ch[-1]
+    w = x.size()
+    ids = {x.get_id()}
+    if x.decl().kind() == z3.Z3_OP_EXTRACT:
+        hi, lo = x.params()
+        if lo == 0 and hi == w - 1:
+            ids.add(x.arg(0).get_id())      # (x[w-1:0])[w-1] is simplified to x[w-1]
+    for c in ch[:-1]:
+        if c.decl().kind() != z3.Z3_OP_EXTRACT:
+            return False
+        hi, lo = c.params()
+        if hi != w - 1 or lo != w - 1 or c.arg(0).get_id() not in ids:
+            return False
+    return True
+
+
 class Translator:
     def __init__(self):
-        self.cache = {}        # ast id -> (translated, original kept alive)
+        self.cache = {}        # ast id -> ((term, lo, hi), original kept alive)
+        self.bcache = {}
         self.vars = {}         # bv var id -> (int var, bv var, bits)
         self.side = {}         # int var id -> range constraint
-        self.aux = 0
 
+    # ------------------------------------------------------------------
     def var(self, x):
         k = x.get_id()
         e = self.vars.get(k)
+        bits = x.size()
         if e is None:
-            bits = x.size()
             iv = z3.Int('i!' + x.decl().name())
-            e = self.vars[k] = (iv, x, bits)
-            self.side[iv.get_id()] = z3.And(iv >= 0, iv < (1 << bits))
-        return e[0]
+            lo, hi = -(1 << (bits - 1)), (1 << (bits - 1)) - 1
+            nm = x.decl().name()
+            at = nm.rfind('@')
+            if at >= 0:
+                # declared signed range, part of the unknown's name: name#idx@lo:hi
+                try:
+                    a, b = nm[at + 1:].split(':')
+                    lo, hi = max(lo, int(a)), min(hi, int(b))
+                except ValueError:
+                    pass
+            e = self.vars[k] = (iv, x, bits, lo, hi)
+            self.side[iv.get_id()] = z3.And(iv >= lo, iv <= hi)
+        return e[0], e[3], e[4]
 
-    def t(self, e):
+    @staticmethod
+    def fits(lo, hi, bits):
+        return lo >= -(1 << (bits - 1)) and hi <= (1 << (bits - 1)) - 1
+
+    @staticmethod
+    def wrap(t, lo, hi, bits):
+        """reduce an exact integer to the signed k-bit value"""
+        if Translator.fits(lo, hi, bits):
+            return t, lo, hi
+        H = 1 << (bits - 1)
+        M = 1 << bits
+        # one conditional subtraction / addition suffices when within one period
+        if lo >= -H and hi < H + M:
+            return z3.If(t >= H, t - M, t), -H, H - 1
+        if lo >= -H - M and hi < H:
+            return z3.If(t < -H, t + M, t), -H, H - 1
+        return ((t + H) % M) - H, -H, H - 1
+
+    @staticmethod
+    def unsigned(t, lo, hi, bits):
+        """signed value -> unsigned value with bounds"""
+        M = 1 << bits
+        if lo >= 0:
+            return t, lo, hi
+        if hi < 0:
+            return t + M, lo + M, hi + M
+        return z3.If(t < 0, t + M, t), 0, M - 1
+
+    def from_unsigned(self, t, lo, hi, bits):
+        """unsigned value in [0,2^k) -> signed"""
+        H = 1 << (bits - 1)
+        M = 1 << bits
+        if hi < H:
+            return t, lo, hi
+        if lo >= H:
+            return t - M, lo - M, hi - M
+        return z3.If(t >= H, t - M, t), -H, H - 1
+
+    # ------------------------------------------------------------------
+    def tv(self, e):
+        """bit-vector term -> (int term, lo, hi)"""
         k = e.get_id()
         c = self.cache.get(k)
         if c is not None:
             return c[0]
-        r = self._t(e)
+        r = self._tv(e)
         self.cache[k] = (r, e)
         return r
 
-    @staticmethod
-    def signed(a, bits):
-        return z3.If(a >= (1 << (bits - 1)), a - (1 << bits), a)
+    def t(self, e):
+        """Bool term -> Bool term over integers"""
+        k = e.get_id()
+        c = self.bcache.get(k)
+        if c is not None:
+            return c[0]
+        r = self._tb(e)
+        self.bcache[k] = (r, e)
+        return r
 
-    @staticmethod
-    def wrap_s(s, bits):
-        """signed integer in [-2^(k-1), 2^(k-1)) -> unsigned"""
-        return z3.If(s < 0, s + (1 << bits), s)
-
-    def _t(self, e):
-        if z3.is_bool(e):
-            return self._tb(e)
+    def _tv(self, e):
         if not z3.is_bv(e):
             raise Unsupported('sort')
         bits = e.size()
+        H = 1 << (bits - 1)
         M = 1 << bits
         if z3.is_bv_value(e):
-            return I(e.as_long())
+            v = e.as_long()
+            if v >= H:
+                v -= M
+            return I(v), v, v
         k = e.decl().kind()
         ch = e.children()
         if k == z3.Z3_OP_UNINTERPRETED and not ch:
             return self.var(e)
         if k == z3.Z3_OP_BADD:
-            s = self.t(ch[0])
+            t, lo, hi = self.tv(ch[0])
             for c in ch[1:]:
-                s = s + self.t(c)
-            if len(ch) == 2:
-                return z3.If(s >= M, s - M, s)
-            return s % M
+                t2, l2, h2 = self.tv(c)
+                t = t + t2
+                lo += l2
+                hi += h2
+            return self.wrap(t, lo, hi, bits)
         if k == z3.Z3_OP_BSUB:
-            d = self.t(ch[0])
+            t, lo, hi = self.tv(ch[0])
             for c in ch[1:]:
-                d = d - self.t(c)
-            if len(ch) == 2:
-                return z3.If(d < 0, d + M, d)
-            return d % M
+                t2, l2, h2 = self.tv(c)
+                t = t - t2
+                lo -= h2
+                hi -= l2
+            return self.wrap(t, lo, hi, bits)
         if k == z3.Z3_OP_BNEG:
-            a = self.t(ch[0])
-            return z3.If(a == 0, a, M - a)
+            t, lo, hi = self.tv(ch[0])
+            return self.wrap(-t, -hi, -lo, bits)
         if k == z3.Z3_OP_BMUL:
             consts = [c for c in ch if z3.is_bv_value(c)]
             others = [c for c in ch if not z3.is_bv_value(c)]
@@ -87,82 +168,108 @@ class Translator:
             cv = 1
             for c in consts:
                 cv = (cv * c.as_long()) % M
+            if cv >= H:
+                cv -= M
             if not others:
-                return I(cv)
-            # signed small constants: multiply by the signed value to keep numbers small
-            if cv >= M // 2:
-                return (-(M - cv) * self.t(others[0])) % M
-            return (cv * self.t(others[0])) % M
+                return I(cv), cv, cv
+            t, lo, hi = self.tv(others[0])
+            a, b = cv * lo, cv * hi
+            return self.wrap(cv * t, min(a, b), max(a, b), bits)
         if k in (z3.Z3_OP_BUDIV, z3.Z3_OP_BUDIV_I, z3.Z3_OP_BUREM, z3.Z3_OP_BUREM_I):
             if not z3.is_bv_value(ch[1]) or ch[1].as_long() == 0:
                 raise Unsupported('div by non-constant')
-            a = self.t(ch[0])
             c = ch[1].as_long()
-            return a / c if k in (z3.Z3_OP_BUDIV, z3.Z3_OP_BUDIV_I) else a % c
+            t, lo, hi = self.unsigned(*self.tv(ch[0]), bits)
+            if k in (z3.Z3_OP_BUDIV, z3.Z3_OP_BUDIV_I):
+                return self.from_unsigned(t / c, lo // c, hi // c, bits)
+            return self.from_unsigned(t % c, 0, min(hi, c - 1), bits)
         if k in (z3.Z3_OP_BSDIV, z3.Z3_OP_BSDIV_I, z3.Z3_OP_BSREM, z3.Z3_OP_BSREM_I):
             if not z3.is_bv_value(ch[1]):
                 raise Unsupported('sdiv by non-constant')
             c = ch[1].as_long()
-            if c == 0 or c >= M // 2:
+            if c == 0 or c >= H:
                 raise Unsupported('sdiv by non-positive constant')
-            sa = self.signed(self.t(ch[0]), bits)
-            q = z3.If(sa >= 0, sa / c, -((-sa) / c))
+            t, lo, hi = self.tv(ch[0])
+            if lo >= 0:
+                q = t / c
+            elif hi < 0:
+                q = -((-t) / c)
+            else:
+                q = z3.If(t >= 0, t / c, -((-t) / c))
+            ql, qh = -((-lo) // c) if lo < 0 else lo // c, -((-hi) // c) if hi < 0 else hi // c
             if k in (z3.Z3_OP_BSDIV, z3.Z3_OP_BSDIV_I):
-                return self.wrap_s(q, bits)
-            return self.wrap_s(sa - q * c, bits)
+                return q, ql, qh
+            rl = -(c - 1) if lo < 0 else 0
+            rh = (c - 1) if hi > 0 else 0
+            return t - q * c, rl, rh
         if k == z3.Z3_OP_ITE:
-            return z3.If(self.t(ch[0]), self.t(ch[1]), self.t(ch[2]))
+            c = self.t(ch[0])
+            a, la, ha = self.tv(ch[1])
+            b, lb, hb = self.tv(ch[2])
+            return z3.If(c, a, b), min(la, lb), max(ha, hb)
         if k == z3.Z3_OP_ZERO_EXT:
-            return self.t(ch[0])
-        if k == z3.Z3_OP_SIGN_EXT:
-            a = self.t(ch[0])
             fb = ch[0].size()
-            return z3.If(a >= (1 << (fb - 1)), a + (M - (1 << fb)), a)
+            return self.unsigned(*self.tv(ch[0]), fb)
+        if k == z3.Z3_OP_SIGN_EXT:
+            return self.tv(ch[0])
         if k == z3.Z3_OP_EXTRACT:
-            hi, lo = e.params()
-            a = self.t(ch[0])
-            if lo > 0:
-                a = a / (1 << lo)
-            if hi == ch[0].size() - 1:
-                return a
-            return a % (1 << (hi - lo + 1))
+            hi_, lo_ = e.params()
+            t, lo, hi = self.tv(ch[0])
+            fb = ch[0].size()
+            if lo_ == 0:
+                if hi_ == fb - 1:
+                    return t, lo, hi
+                return self.wrap(t, lo, hi, bits)
+            ut, ulo, uhi = self.unsigned(t, lo, hi, fb)
+            ut = ut / (1 << lo_)
+            ulo, uhi = ulo >> lo_, uhi >> lo_
+            if uhi >= M:
+                ut = ut % M
+                ulo, uhi = 0, M - 1
+            return self.from_unsigned(ut, ulo, uhi, bits)
+        if k == z3.Z3_OP_CONCAT and is_sext_idiom(e):
+            return self.tv(ch[-1])
         if k == z3.Z3_OP_CONCAT:
-            r = self.t(ch[0])
+            ut, ulo, uhi = self.unsigned(*self.tv(ch[0]), ch[0].size())
             for c in ch[1:]:
-                r = r * (1 << c.size()) + self.t(c)
-            return r
+                cb = c.size()
+                ct, clo, chi = self.unsigned(*self.tv(c), cb)
+                ut = ut * (1 << cb) + ct
+                ulo = ulo * (1 << cb) + clo
+                uhi = uhi * (1 << cb) + chi
+            return self.from_unsigned(ut, ulo, uhi, bits)
         if k == z3.Z3_OP_BNOT:
-            return (M - 1) - self.t(ch[0])
+            t, lo, hi = self.tv(ch[0])
+            return -t - 1, -hi - 1, -lo - 1
         if k == z3.Z3_OP_BAND and len(ch) == 2:
             cs = [c for c in ch if z3.is_bv_value(c)]
             os_ = [c for c in ch if not z3.is_bv_value(c)]
             if len(cs) == 1 and len(os_) == 1:
                 m = cs[0].as_long()
                 if m & (m + 1) == 0:          # low mask 2^j-1
-                    return self.t(os_[0]) % (m + 1)
-                # high mask: clear the low j bits
-                inv = (M - 1) ^ m
-                if inv & (inv + 1) == 0:
-                    a = self.t(os_[0])
-                    return a - a % (inv + 1)
+                    ut, ulo, uhi = self.unsigned(*self.tv(os_[0]), bits)
+                    if uhi <= m:
+                        return self.from_unsigned(ut, ulo, uhi, bits)
+                    return self.from_unsigned(ut % (m + 1), 0, m, bits)
             raise Unsupported('bvand')
         if k == z3.Z3_OP_BSHL and z3.is_bv_value(ch[1]):
             c = ch[1].as_long()
             if c >= bits:
-                return I(0)
-            return (self.t(ch[0]) * (1 << c)) % M
+                return I(0), 0, 0
+            t, lo, hi = self.tv(ch[0])
+            return self.wrap(t * (1 << c), lo << c, hi << c, bits)
         if k == z3.Z3_OP_BLSHR and z3.is_bv_value(ch[1]):
             c = ch[1].as_long()
             if c >= bits:
-                return I(0)
-            return self.t(ch[0]) / (1 << c)
+                return I(0), 0, 0
+            ut, ulo, uhi = self.unsigned(*self.tv(ch[0]), bits)
+            return self.from_unsigned(ut / (1 << c), ulo >> c, uhi >> c, bits)
         if k == z3.Z3_OP_BASHR and z3.is_bv_value(ch[1]):
             c = ch[1].as_long()
             if c >= bits:
                 c = bits - 1
-            sa = self.signed(self.t(ch[0]), bits)
-            # floor division of the signed value
-            return self.wrap_s(sa / (1 << c), bits)
+            t, lo, hi = self.tv(ch[0])
+            return t / (1 << c), lo >> c, hi >> c        # floor division
         raise Unsupported('bv op %s' % e.decl().name())
 
     def _tb(self, e):
@@ -183,21 +290,29 @@ class Translator:
         if k == z3.Z3_OP_ITE:
             return z3.If(self.t(ch[0]), self.t(ch[1]), self.t(ch[2]))
         if k == z3.Z3_OP_EQ or k == z3.Z3_OP_IFF:
-            return self.t(ch[0]) == self.t(ch[1])
+            if z3.is_bool(ch[0]):
+                return self.t(ch[0]) == self.t(ch[1])
+            a, la, ha = self.tv(ch[0])
+            b, lb, hb = self.tv(ch[1])
+            if ha < lb or hb < la:
+                return z3.BoolVal(False)
+            return a == b
         if k == z3.Z3_OP_DISTINCT:
-            return z3.Distinct(*[self.t(c) for c in ch])
-        if k == z3.Z3_OP_ULEQ:
-            return self.t(ch[0]) <= self.t(ch[1])
-        if k == z3.Z3_OP_ULT:
-            return self.t(ch[0]) < self.t(ch[1])
-        if k == z3.Z3_OP_UGEQ:
-            return self.t(ch[0]) >= self.t(ch[1])
-        if k == z3.Z3_OP_UGT:
-            return self.t(ch[0]) > self.t(ch[1])
-        if k in (z3.Z3_OP_SLEQ, z3.Z3_OP_SLT, z3.Z3_OP_SGEQ, z3.Z3_OP_SGT):
+            return z3.Distinct(*[self.tv(c)[0] for c in ch])
+        if k in (z3.Z3_OP_ULEQ, z3.Z3_OP_ULT, z3.Z3_OP_UGEQ, z3.Z3_OP_UGT):
             b = ch[0].size()
-            x = self.signed(self.t(ch[0]), b)
-            y = self.signed(self.t(ch[1]), b)
+            x = self.unsigned(*self.tv(ch[0]), b)[0]
+            y = self.unsigned(*self.tv(ch[1]), b)[0]
+            if k == z3.Z3_OP_ULEQ:
+                return x <= y
+            if k == z3.Z3_OP_ULT:
+                return x < y
+            if k == z3.Z3_OP_UGEQ:
+                return x >= y
+            return x > y
+        if k in (z3.Z3_OP_SLEQ, z3.Z3_OP_SLT, z3.Z3_OP_SGEQ, z3.Z3_OP_SGT):
+            x = self.tv(ch[0])[0]
+            y = self.tv(ch[1])[0]
             if k == z3.Z3_OP_SLEQ:
                 return x <= y
             if k == z3.Z3_OP_SLT:
@@ -208,15 +323,3 @@ class Translator:
         if k == z3.Z3_OP_UNINTERPRETED and not ch:
             return e
         raise Unsupported('bool op %s' % e.decl().name())
-
-    def vars_of(self, e, acc, seen):
-        """collect BV variables of e (ids) into acc"""
-        k = e.get_id()
-        if k in seen:
-            return
-        seen.add(k)
-        if z3.is_bv(e) and e.decl().kind() == z3.Z3_OP_UNINTERPRETED and e.num_args() == 0:
-            acc.add(k)
-            return
-        for c in e.children():
-            self.vars_of(c, acc, seen)
